@@ -31,6 +31,7 @@ pub struct LiveAgent {
     pub api_addr: SocketAddr,
     tw_tx: mpsc::Sender<()>,
     tw_worker: Option<TripwireWorker<ReceiverStream<()>>>,
+    baseline_handles: usize,
 }
 
 impl LiveAgent {
@@ -39,9 +40,10 @@ impl LiveAgent {
         let mut conf = node_config(dir);
         adjust(&mut conf);
         let (tripwire, tw_worker, tw_tx) = Tripwire::new_simple();
+        let baseline_handles = klukai_types::spawn::PENDING_HANDLES.load(std::sync::atomic::Ordering::SeqCst);
         let (agent, bookie, transport, handles) = start_with_config(conf, tripwire).await.map_err(|e| SimErr(format!("start_with_config: {e}")))?;
         let api_addr = agent.api_addr();
-        Ok(LiveAgent { agent, bookie, transport, handles, dir: dir.to_path_buf(), api_addr, tw_tx, tw_worker: Some(tw_worker) })
+        Ok(LiveAgent { agent, bookie, transport, handles, dir: dir.to_path_buf(), api_addr, tw_tx, tw_worker: Some(tw_worker), baseline_handles })
     }
 
     /// no graceful shutdown (the foca loop alone takes 5 s to leave the cluster): trip the tripwire and
@@ -56,19 +58,40 @@ impl LiveAgent {
     /// graceful shutdown as `command::agent::run` does: trip the tripwire, await the handles, wait for
     /// all counted tasks
     pub async fn stop(mut self) {
+        let _ = self.stop_in_place().await;
+    }
+
+    /// returns whether everything finished inside the ceilings
+    pub async fn stop_in_place(&mut self) -> bool {
         let t0 = std::time::Instant::now();
         let timing = std::env::var_os("KVERIF_TIMING").is_some();
         let _ = self.tw_tx.send(()).await;
         if let Some(w) = self.tw_worker.take() {
             w.await;
         }
+        let mut ok = true;
         for (i, h) in self.handles.drain(..).enumerate() {
-            let _ = tokio::time::timeout(Duration::from_secs(10), h).await;
+            ok &= tokio::time::timeout(Duration::from_secs(10), h).await.is_ok();
             if timing {
                 eprintln!("stop: handle {i} done at {:?}", t0.elapsed());
             }
         }
-        let _ = tokio::time::timeout(Duration::from_secs(15), klukai_types::spawn::wait_for_all_pending_handles()).await;
+        // wind down subscriptions and update feeds as `command::agent::run` does, then wait for the counted
+        // tasks; other nodes of the harness live in this process too, so "all done" means back to the count
+        // that was there before this agent started
+        self.agent.subs_manager().drop_handles().await;
+        let deadline = tokio::time::Instant::now() + Duration::from_secs(60);
+        while klukai_types::spawn::PENDING_HANDLES.load(std::sync::atomic::Ordering::SeqCst) > self.baseline_handles {
+            if tokio::time::Instant::now() > deadline {
+                ok = false;
+                break;
+            }
+            tokio::time::sleep(Duration::from_millis(50)).await;
+        }
+        if timing {
+            eprintln!("stop: counted tasks done at {:?}", t0.elapsed());
+        }
+        ok
     }
 }
 
